@@ -398,7 +398,13 @@ func (s *MonStore) ProtoInto(target gen.StoreSpec, name string) *MonStore {
 	t := NewMonStore(s.C, target, name)
 	s.around("ToProto", true, func() {
 		pb := s.St.ToProto()
-		store.MergeWithProto(t.St, pb)
+		// the paginated store also has its own MergeWithProto method
+		if bp, ok := t.St.(*store.BufferedPaginatedStore); ok && s.C.R.Bool() {
+			bp.MergeWithProto(pb)
+			s.C.Count("proto.via_paginated_method", 1)
+		} else {
+			store.MergeWithProto(t.St, pb)
+		}
 	})
 	t.M.Merge(s.M)
 	s.C.Count("event.MergeWithProto", 1)
